@@ -28,9 +28,16 @@ func (t *Target) AccessDeniedHTTP(r *http.Request) bool {
 		return false
 	}
 
+	// remove the zone of a scoped IPv6 address like fe80::1%eth0
+	if n := strings.IndexByte(host, '%'); n >= 0 {
+		host = host[:n]
+	}
+
 	ip := net.ParseIP(host)
 	if ip == nil {
+		// there are rules but the address cannot be checked against them
 		log.Printf("[WARN] failed to parse remote address %s", host)
+		return true
 	}
 
 	// check remote source and return if denied
